@@ -239,6 +239,9 @@ func (t *Type) Str(q Qual) string {
 	case Chan, Func:
 		return t.Text
 	case Iface:
+		if t.Name == "any" && q.Canon {
+			return "interface{}" // one type, two spellings
+		}
 		if t.Name != "" {
 			return t.Name
 		}
